@@ -26,7 +26,7 @@ type Gen struct {
 	// Timeouts offered for new promises, relative to "now" (ms); negative = already past
 	TimeoutDeltas []int64
 	ClaimTtls     []int // leases offered to ClaimTask (nil = default pool)
-	RouteOneIn    int // a created promise carries a routing tag with probability 1/RouteOneIn (0 = never)
+	RouteOneIn    int   // a created promise carries a routing tag with probability 1/RouteOneIn (0 = never)
 	RouteTags     []string
 	PastTimeouts  bool // allow create with timeout <= now (F13)
 	Excluded      map[string]int
